@@ -482,12 +482,21 @@ def rule_sentinel(m, rep, count=True):
             type_head(t.get('dest_ty', '')) == S]
     runs = [bi for bi, t in b.calls() if t.get('resolved') == m.run.path]
     cancels = []
+    by_value = set()
     sent_methods = [x for x in cad.all_bodies if x.impl_self and type_head(x.impl_self) == S and x.impl_trait is None]
     sfields = [f['name'] for f in adt_fields(cad, S)]
     for x in sent_methods:
         Tx = Terms(x)
         sts = [(st, norm(Tx.store_value(st))) for st in Tx.stores() if st[0] == 's' and st[3][0] == 'field' and st[3][2] in sfields
                and peel(st[3][1]) == ('param', 1)]
+        if not sts and x.arg_count >= 1 and type_head(x.locals[1]) == S and not x.locals[1].startswith('&'):
+            # `fn cancel(mut self)`: the sentinel is taken by value, disarmed in place and dropped when the method returns
+            for bi_, blk_ in enumerate(x.blocks):
+                for si_, s_ in enumerate(blk_['stmts']):
+                    if s_['k'] == 'assign' and s_['place']['l'] == 1 and len(s_['place']['p']) == 1 and s_['place']['p'][0][0] == 'field' and \
+                            s_['place']['p'][0][2] in sfields and not blk_['cleanup']:
+                        sts.append((('s', bi_, si_, ('field', ('param', 1), s_['place']['p'][0][2])), norm(Tx.rvalue_term(s_['rv'], bi_, si_))))
+            by_value.add(x.path)
         if sts:
             cancels.append((x, sts))
     rep.sites(len(news) + len(runs))
@@ -514,6 +523,9 @@ def rule_sentinel(m, rep, count=True):
     drops_n = [bi for bi in normal if b.blocks[bi]['term']['k'] == 'drop' and type_head(b.blocks[bi]['term']['ty']) == S]
     drops_u = [bi for bi in unw if b.blocks[bi]['term']['k'] == 'drop' and type_head(b.blocks[bi]['term']['ty']) == S]
     forget = [bi for bi, t in b.calls() if callee_is(t, 'core::mem::forget', 'ManuallyDrop::new')]
+    if not drops_n and cancel.path in by_value:
+        # moved into cancel(self): dropped there, at the end of the method
+        drops_n = [bi for bi, blk in enumerate(cancel.blocks) if blk['term']['k'] == 'drop' and type_head(blk['term']['ty']) == S and not blk['cleanup']]
     ok3 = bool(drops_n) and bool(drops_u) and not forget
     rep.ob('R1', 'sentinel-dropped-on-both-paths', ok3, b.where(), 'the sentinel is dropped after run() returns and when it unwinds' if ok3 else 'the sentinel is not dropped on the unwind path / is forgotten')
     # the guarded body is only entered from the spawned thread
